@@ -1992,14 +1992,15 @@ func c16Informational(c *Ctx, pool *Pool) error {
 	return nil
 }
 
-const c16Rule = "Seeded generation of formatter inputs (well-formed programs under layout/comment noise, token-level corruptions, garbage) and of well-formed programs for compile; every input goes through each entry point as its own OS process over a sandbox directory whose initial state (path shape of the file, siblings, stale longer output files, existing/missing/nested directories) is drawn from the seed, and through host histories of calls to the exported C function on 2-4 simulated host threads; oracle = the library result computed by the same build under the reference schedule. A case is distinct by (input hash) for format, by (program, target set, spelling, disk0 shape) for compile, by history seed for the library; non-trivial = it reached the entry point and was compared."
+const c16Rule = "Seeded generation of formatter inputs (well-formed programs under layout/comment noise, token-level corruptions, garbage) and of well-formed programs for compile; every input goes through each entry point as its own OS process over a sandbox directory whose initial state (path shape of the file, siblings, stale longer output files, existing/missing/nested directories) is drawn from the seed, and through host histories of calls to the exported C function on 1-4 simulated host threads (host memory model: returned strings kept alive and read again before they are freed, one reused and scribbled input buffer per thread, same-length overtyped texts; a dying host is a violation), through one exhaustive sweep of compile argument shapes per program (subcommand word x flag order x 5 file-flag spellings x 5 output-flag spellings x 9 directory values), format -f also on NAME_MAX names and in a directory that accepts no new entries; oracle = the library result computed by the same build under the reference schedule. A case is distinct by (input hash) for format, by (program, target set, spelling, disk0 shape) for compile, by history seed for the library; non-trivial = it reached the entry point and was compared."
 
 var c16Assumptions = []string{
 	"`format -d \"\"` is excluded (the CLI cannot distinguish it from an absent flag); inputs containing NUL are excluded for argv and C strings (not representable)",
 	"inputs on which the reference formatter itself panics, and programs on which a generator panics or which the compiler rejects, are skipped (C11/C12/C07 territory)",
 	"format -d may end its output with one newline (Println); format -f must leave exactly the result",
 	"byte comparison of multi-target compile invocations is against the generators run with the same targets in the same order on one model (interference between targets is C14's subject)",
-	"I/O errors are not asserted: the property promises nothing under them (informational probe only)",
+	"I/O errors are not asserted: the property promises nothing under them (informational probe only); the two environment faults of format -f (no new directory entries, NAME_MAX names) use the relaxed oracle: a run that exits non-zero is not judged, a run that exits 0 must have left exactly the result",
+	"the host of the C export follows the documented contract: every returned string is freed exactly once with free(), possibly after further calls, and may be read until then; input buffers belong to the host and may change as soon as the call has returned",
 	"host calls interleave at call granularity; two threads inside the export at once are not simulated",
 }
 
